@@ -81,7 +81,7 @@ CHECKS.update({
              "MC_Node.tla composes Pool.tla and Votor.tla as consensus.rs wires them (FIFO event channels, own votes looped back "
              "through the network with arbitrary delay): there the rules hold without assumptions about the pool, own votes are "
              "never refused by the own pool, and the real PoolImpl + Votor pair is replayed against it.",
-        note="pool guarantees towards Votor are assumed here and established by C06; timer arming not observed; " + TB,
+        note="pool guarantees towards Votor are assumed in MC_Votor (established by C06) and dropped in MC_Node; " + TB,
         technique="TLA+ spec of Votor + TLC exhaustive BFS (bounded event count) + spec->code transition replay",
         design="4 C05"),
 })
